@@ -138,7 +138,14 @@ impl Run {
         // deleted files: must be the oldest ones (a prefix of the creation order)
         let present: Vec<bool> = self.order.iter().map(|f| same_file(self, f)).collect();
         if let Some(first_present) = present.iter().position(|p| *p) {
-            if let Some(hole) = present[first_present..].iter().position(|p| !*p) {
+            // (files of earlier runs that carry the very same modification time have no
+            // order among themselves: deleting any of them first is "oldest first")
+            let tie = |me: &Self, a: &String, b: &String| match (me.info.get(a), me.info.get(b)) {
+                (Some(x), Some(y)) => x.preexisting && y.preexisting && x.last_write_ns == y.last_write_ns,
+                _ => false,
+            };
+            let survivor = self.order[first_present].clone();
+            if let Some(hole) = present[first_present..].iter().enumerate().position(|(i, p)| !*p && !tie(self, &self.order[first_present + i], &survivor)) {
                 return Err(Outcome::fail(
                     "C19.deletes_oldest_first",
                     format!("file {} was deleted although the older file {} survives; history: {:?}", self.order[first_present + hole], self.order[first_present], self.descr),
@@ -388,6 +395,17 @@ fn history(cfg: &RunCfg) -> Outcome {
             ages[k] = ages[k - 1].saturating_sub(1);
         }
     }
+    // Files restored with coarse timestamps, or closed within one timestamp tick, carry
+    // the very same mtime: they must all be found, counted and deleted like any other file
+    // (their order among themselves is free).
+    if npre >= 2 && gen::ratio(1, 4) {
+        let k = 1 + gen::below(npre - 1) as usize;
+        ages[k] = ages[k - 1];
+        if k + 1 < ages.len() && gen::ratio(1, 2) {
+            ages[k + 1] = ages[k];
+        }
+        gen::count("probe.preexisting_files_with_equal_mtime");
+    }
     for i in 0..npre {
         let age_s = ages[i as usize];
         let name = format!("{PREFIX}.20231114T{:02}{:02}{:02}Z-0", i, i, i);
@@ -613,12 +631,12 @@ pub fn spec() -> PropertySpec {
     PropertySpec {
         id: "C19",
         level: "exploration",
-        rule: "The real LogFileWriter writer thread and real files in a per-run tmpfs directory, built with --cfg servlin_verif so that the thread reads a simulated clock and reports each finished event; the harness drives it in lock-step (set clock, send one event with a unique sequence number, wait for the thread). Histories of 30-430 events (quick) / 100-20000 (thorough), 50 B - 60 KiB each (in some runs also 66-146 KB: larger than a 64 KiB file and than the smallest keep budget, singly and back to back), over configurations max_write_bytes in {64 KiB, 128 KiB, 1 MiB} x max_keep_bytes in {1, 2, 3.5, 10} x that, keep-age off / 60 s .. 1 day, max_write_age 1 s .. 1 day; clock gaps of milliseconds, seconds, hours, days; 0-5 pre-existing files of earlier runs with set sizes and mtimes; unrelated look-alike files; restarts at random points: graceful, kill (thread abandoned), kill with a torn tail (newest file cut inside its last line). After EVERY event: creation order by diffing listings, oldest-first deletion, per-file size and age bounds, total size of all prefix files <= keep-size + one event, keep-age, unrelated files untouched; at every rotation and every 64 events: all surviving lines are whole, strictly consecutive and end at the newest accepted event. File-set stage: PrefixFileSet {new, push, delete_oldest, delete_older_than, delete_oldest_while_over_max_len} sequences with synthetic clocks against a reference model of the directory. non-trivial = at least one rotation; distinct = hash of history description.",
+        rule: "The real LogFileWriter writer thread and real files in a per-run tmpfs directory, built with --cfg servlin_verif so that the thread reads a simulated clock and reports each finished event; the harness drives it in lock-step (set clock, send one event with a unique sequence number, wait for the thread). Histories of 30-430 events (quick) / 100-20000 (thorough), 50 B - 60 KiB each (in some runs also 66-146 KB: larger than a 64 KiB file and than the smallest keep budget, singly and back to back), over configurations max_write_bytes in {64 KiB, 128 KiB, 1 MiB} x max_keep_bytes in {1, 2, 3.5, 10} x that, keep-age off / 60 s .. 1 day, max_write_age 1 s .. 1 day; clock gaps of milliseconds, seconds, hours, days; 0-5 pre-existing files of earlier runs with set sizes and mtimes (in a quarter of these runs two or three of them share one mtime: all must be counted and deleted, in any order among themselves); unrelated look-alike files; restarts at random points: graceful, kill (thread abandoned), kill with a torn tail (newest file cut inside its last line). After EVERY event: creation order by diffing listings, oldest-first deletion, per-file size and age bounds, total size of all prefix files <= keep-size + one event, keep-age, unrelated files untouched; at every rotation and every 64 events: all surviving lines are whole, strictly consecutive and end at the newest accepted event. File-set stage: PrefixFileSet {new, push, delete_oldest, delete_older_than, delete_oldest_while_over_max_len} sequences with synthetic clocks against a reference model of the directory. non-trivial = at least one rotation; distinct = hash of history description.",
         scenarios: vec![
             Scenario { name: "c19.history", property: "C19", func: history, runs_quick: 6_000, runs_thorough: 60_000, doc: "writer thread histories" },
             Scenario { name: "c19.file_set", property: "C19", func: file_set, runs_quick: 80_000, runs_thorough: 1_500_000, doc: "file-set API vs model" },
         ],
-        required_probes: vec!["probe.rotations", "probe.files_deleted", "probe.preexisting_files", "probe.event_larger_than_a_file", "fault.graceful_restart", "fault.kill_restart", "fault.kill_restart_torn_tail"],
+        required_probes: vec!["probe.rotations", "probe.files_deleted", "probe.preexisting_files", "probe.preexisting_files_with_equal_mtime", "probe.event_larger_than_a_file", "fault.graceful_restart", "fault.kill_restart", "fault.kill_restart_torn_tail"],
         components: json!({
             "real": ["/repo/src/log/log_file_writer.rs, prefix_file_set.rs (with the guarded clock / progress hooks)", "the writer OS thread", "std::fs on tmpfs"],
             "simulated": ["the wall clock read by the writer (verif_hooks::now)", "the pacing of the writer thread (lock-step: one event at a time)", "file mtimes left by earlier runs (set explicitly)"],
